@@ -10,7 +10,7 @@ DEFAULT_W = {
     "scope": 10, "cancel": 9, "cbcancel": 2, "shield": 2, "deadline": 3,
     "group": 7, "spawn": 9, "start": 4, "catch": 3, "catchall": 1, "finally": 4,
     "ncancel": 2, "uncancel": 1, "hcancel": 3, "hwait": 3, "started": 4,
-    "raisegroup": 1, "failafter": 2,
+    "raisegroup": 1, "failafter": 2, "dldance": 1,
 }
 
 
@@ -47,7 +47,7 @@ class Gen:
         r = self.rng
         for _ in range(20):
             k = self.pick()
-            if k in ("scope", "group", "catch", "catchall", "finally", "failafter") and depth >= self.max_depth:
+            if k in ("scope", "group", "catch", "catchall", "finally", "failafter", "dldance") and depth >= self.max_depth:
                 continue
             if k == "yield":
                 return ["yield"]
@@ -69,6 +69,22 @@ class Gen:
             if k == "raisegroup":
                 self.nerr += 1
                 return ["raisegroup", r.choice([["n"], ["n", f"e{self.nerr}"], [f"e{self.nerr}", "n"]])]
+            if k == "dldance":
+                # one scope whose deadline is paused (inf), moved later/earlier and resumed while the
+                # clock runs past the earlier values
+                key = self.key("s")
+                self.scope_keys.append(key)
+                steps: list = []
+                for _ in range(r.randint(3, 7)):
+                    c = r.random()
+                    if c < 0.45:
+                        steps.append(["deadline", key, r.choice([None, None, 1, 2, 3, 5, 8])])
+                    elif c < 0.85:
+                        steps.append(["sleep", r.randint(1, 4)])
+                    else:
+                        steps.append(r.choice([["effdl"], ["yield"], ["chkif"]]))
+                kind = r.choice(["scope", "scope", "failafter"])
+                return [kind, {"k": key, "deadline": r.choice([None, 1, 2, 3])}, steps]
             if k == "failafter":
                 key = self.key("s")
                 self.scope_keys.append(key)
